@@ -546,4 +546,140 @@ MUTANTS = [
             merge_location,""", """                msg: other.to_string(),
             },
             ValuePointerRef::Origin,""")]},
+    # ------------------------------------------------------------------ behaviour-preserving variants (must stay silent)
+    {"id": "keep-comments-shift-lines", "kind": "preserving", "props": [], "edits": [
+        (IMPLS, "use crate::{", "// a comment\n\n// another comment that shifts every line number\n\nuse crate::{"),
+        ("src/errors/json.rs", "use super::helpers::did_you_mean;", "// shifted\n\n\nuse super::helpers::did_you_mean;"),
+        (NF, "use crate::parse_type::NamedFieldsInfo;", "// shifted\n\nuse crate::parse_type::NamedFieldsInfo;")]},
+    {"id": "keep-rename-locals-vec", "kind": "preserving", "props": [], "edits": [
+        (IMPLS, """                let mut error = None;
+                let mut vec = Vec::with_capacity(seq.len());
+                for (index, value) in seq.into_iter().enumerate() {
+                    let result =
+                        T::deserialize_from_value(value.into_value(), location.push_index(index));
+                    match result {
+                        Ok(value) => {
+                            vec.push(value);
+                        }
+                        Err(e) => {
+                            error = match E::merge(error, e, location.push_index(index)) {
+                                ControlFlow::Continue(e) => Some(e),
+                                ControlFlow::Break(e) => return Err(e),
+                            };
+                        }
+                    }
+                }
+                if let Some(e) = error {
+                    Err(e)
+                } else {
+                    Ok(vec)
+                }""", """                let mut accumulated = None;
+                let mut out = Vec::with_capacity(seq.len());
+                for (i, item) in seq.into_iter().enumerate() {
+                    match T::deserialize_from_value(item.into_value(), location.push_index(i)) {
+                        Ok(parsed) => out.push(parsed),
+                        Err(child_error) => {
+                            let here = location.push_index(i);
+                            accumulated = match E::merge(accumulated, child_error, here) {
+                                ControlFlow::Continue(merged) => Some(merged),
+                                ControlFlow::Break(stop) => return Err(stop),
+                            };
+                        }
+                    }
+                }
+                match accumulated {
+                    Some(e) => Err(e),
+                    None => Ok(out),
+                }""")]},
+    {"id": "keep-option-match-form", "kind": "preserving", "props": [], "edits": [
+        (IMPLS, "            value => T::deserialize_from_value(value, location).map(Some),", """            value => match T::deserialize_from_value(value, location) {
+                Ok(inner) => Ok(Some(inner)),
+                Err(e) => Err(e),
+            },""")]},
+    {"id": "keep-map-parse-key", "kind": "preserving", "props": [], "occurrence": "all", "edits": [
+        (IMPLS, "                    match Key::from_str(&string_key) {", "                    match string_key.parse::<Key>() {")]},
+    {"id": "keep-tuple-question-free", "kind": "preserving", "props": [], "edits": [
+        (IMPLS, """                if let Some(error) = error {
+                    Err(error)
+                } else {
+                    Ok((a.unwrap(), b.unwrap()))
+                }""", """                match error {
+                    None => Ok((a.unwrap(), b.unwrap())),
+                    Some(error) => Err(error),
+                }""")]},
+    {"id": "keep-to-owned-reverse-in-place", "kind": "preserving", "props": [], "edits": [
+        ("src/value.rs", "        let components = components.into_iter().rev().collect();\n        ValuePointer { path: components }", "        components.reverse();\n        ValuePointer { path: components }")]},
+    {"id": "keep-first-field-match", "kind": "preserving", "props": [], "edits": [
+        ("src/value.rs", "            ValuePointerRef::Key { key, prev } => prev.first_field().or(Some(key)),", """            ValuePointerRef::Key { key, prev } => match prev.first_field() {
+                Some(first) => Some(first),
+                None => Some(key),
+            },""")]},
+    {"id": "keep-did-you-mean-if-chain", "kind": "preserving", "props": [], "edits": [
+        ("src/errors/helpers.rs", """    let typo_allowed = match received.len() {
+        // no typos are allowed, we can early return
+        0..=3 => return String::new(),
+        4..=7 => 1,
+        8..=12 => 2,
+        13..=17 => 3,
+        18..=24 => 4,
+        _ => 5,
+    };""", """    let len = received.len();
+    let typo_allowed = if len < 4 {
+        return String::new();
+    } else if len <= 7 {
+        1
+    } else if len < 13 {
+        2
+    } else if len <= 17 {
+        3
+    } else if len < 25 {
+        4
+    } else {
+        5
+    };""")]},
+    {"id": "keep-derive-template-cosmetics", "kind": "preserving", "props": [], "edits": [
+        (NF, "        for (deserr_key__, deserr_value__) in ::deserr::Map::into_iter(deserr_map__) {\n            match deserr_key__.as_str() {", "        let deserr_entries__ = ::deserr::Map::into_iter(deserr_map__);\n        for (deserr_key__, deserr_value__) in deserr_entries__ {\n            let deserr_key_str__: &str = deserr_key__.as_str();\n            match deserr_key_str__ {"),
+        (NF, """        if let Some(deserr_error__) = deserr_error__ {
+            ::std::result::Result::Err(deserr_error__)
+        } else {""", """        if let ::std::option::Option::Some(deserr_final_error__) = deserr_error__ {
+            ::std::result::Result::Err(deserr_final_error__)
+        } else {""")]},
+    {"id": "keep-json-error-arm-order", "kind": "preserving", "props": [], "edits": [
+        ("src/errors/json.rs", """            ErrorKind::MissingField { field } => {
+                let location = location_json_description(location, " inside");
+                format!("Missing field `{field}`{location}")
+            }
+""", ""),
+        ("src/errors/json.rs", """            ErrorKind::Unexpected { msg } => {
+                let location = location_json_description(location, " at");
+                format!("Invalid value{location}: {msg}")
+            }
+""", """            ErrorKind::Unexpected { msg } => {
+                let location = location_json_description(location, " at");
+                format!("Invalid value{location}: {msg}")
+            }
+            ErrorKind::MissingField { field } => {
+                let where_ = location_json_description(location, " inside");
+                format!("Missing field `{field}`{where_}")
+            }
+""")]},
+    {"id": "keep-merge-rename-self-fields", "kind": "preserving", "props": [], "edits": [
+        (AP, """        if let Some(rename) = other.rename {
+            if let Some(self_rename) = &self.rename {
+                return Err(syn::Error::new_spanned(
+                    self_rename,
+                    "The `rename` field attribute is defined twice.",
+                ));
+            }
+            self.rename = Some(rename)
+        }""", """        match (other.rename, &self.rename) {
+            (Some(_), Some(already)) => {
+                return Err(syn::Error::new_spanned(
+                    already,
+                    "The `rename` field attribute is defined twice.",
+                ));
+            }
+            (Some(rename), None) => self.rename = Some(rename),
+            (None, _) => {}
+        }""")]},
 ]
